@@ -279,13 +279,17 @@ PROPS = {
     },
     "C19": {
         "lean": ["OxiModel.Props.C19"],
-        "streams": [{"name": "corr-filters", "quick": 3000, "thorough": 60000}],
-        "oracles": [{"name": "oracle-c19", "quick": 1500, "thorough": 30000}],
-        "claim": "Lean 4 theorems: generic decode(encode) round trip for every predictor, each filter_line/unfilter_line arm identified with the "
-                 "specification's filter/reconstruction for all bpp>=1 and all rows, Paeth = spec on all triples; model tied to the code by exact "
-                 "correspondence streams (incl. all 2^24 Paeth triples) and an image-level oracle for the ten strategies.",
-        "note": "Lean kernel + propext/Quot.sound; model-code tie is tested (streams), not proved; the heuristic strategies' per-row choice is covered as "
-                "'any legal choice' by the image-level oracle.",
+        "streams": [{"name": "corr-filters", "quick": 3000, "thorough": 60000},
+                    {"name": "oracle-c19", "quick": 2000, "thorough": 40000}],
+        "oracles": [],
+        "claim": "Lean 4 theorems: generic decode(encode) round trip for every predictor (induction along the line), each filter_line/unfilter_line arm identified with the "
+                 "specification's filter/reconstruction for all bpp>=1 and all rows, Paeth = spec on all triples, only legal filter bytes; IMAGE LEVEL: for ANY per-row choice of filter "
+                 "types 0..4 (hence all ten strategies: the delta strategies with their first-row fallback, the heuristics with whatever they pick) row-wise filtering followed by the "
+                 "specification's reconstruction (prior row reset per pass) returns the rows (induction over rows); the stream a standard strategy writes is the serialisation of such rows; "
+                 "unfilter_image is the specification's reconstruction. Tied to the code by exact streams: filter_line/unfilter_line, all 2^24 Paeth triples, filter_image for the five delta "
+                 "strategies byte for byte, and for the five heuristics with the per-row choice read back from the output (must be a choice the model allows and give the same bytes); the same "
+                 "stream reconstructs every output with reference code written from the specification.",
+        "note": "Lean kernel + propext/Quot.sound; model-code tie is tested (streams), not proved. Which filter a heuristic picks is deliberately not modelled (free to change).",
         "technique": "Lean 4 proof (induction along the scan line) + model/implementation correspondence check",
         "rule": "filter_line/unfilter_line on random and structured rows (zeros, 0xFF, ramps, few values) for bpp in {1,2,3,4,6,8}, "
                 "a malformed stream violating the length asserts, Paeth on all 2^24 triples as a digest; oracle: filter_image for the ten "
